@@ -168,16 +168,77 @@ class Repo:
                 raise AnalysisError(f"syntax error in {path}: {e}") from e
             mod = Module(name, path, src, tree, hashlib.sha256(src.encode()).hexdigest())
             self.modules[name] = mod
-        # canonical spelling (renames undone, new helpers inlined, walrus hoisted) before anything is indexed
+        # canonical spelling (renames undone, new helpers inlined, walrus hoisted, aliases propagated) before the
+        # rules see anything; the rewritten trees are cached by the digest of all sources + the normaliser itself
+        if os.environ.get("SA_NO_NORMALIZE"):
+            self.normalisation = {"disabled": True}
+            for mod in self.modules.values():
+                self._index(mod)
+            return
+        cached = self._cache_load()
+        if cached is not None:
+            trees, self.normalisation = cached
+            for n, m in self.modules.items():
+                m.tree = trees[n]
+            for mod in self.modules.values():
+                self._index(mod)
+            return
         from .normalize import normalize_trees
 
         self.normalisation = normalize_trees({n: m.tree for n, m in self.modules.items()})
         for mod in self.modules.values():
             self._index(mod)
-        if not self.normalisation.get("disabled"):
-            from .aliases import propagate_aliases
+        from .aliases import propagate_aliases
 
-            self.normalisation["aliases"] = propagate_aliases(self)
+        self.normalisation["aliases"] = propagate_aliases(self)
+        self._cache_store()
+
+    # ------------------------------------------------------------------ cache of the normalised trees
+    def _cache_key(self) -> str:
+        h = hashlib.sha256()
+        for n in sorted(self.modules):
+            h.update(n.encode())
+            h.update(self.modules[n].digest.encode())
+        here = Path(__file__).resolve().parent
+        for f in ("normalize.py", "aliases.py", "baseline_symbols.json", "resolve.py", "cfg.py", "sym.py"):
+            p = here / f
+            if p.is_file():
+                h.update(p.read_bytes())
+        return h.hexdigest()[:32]
+
+    def _cache_dir(self) -> Path:
+        return Path(os.environ.get("SA_CACHE_DIR") or (Path(__file__).resolve().parent.parent / ".cache"))
+
+    def _cache_load(self):
+        import pickle
+
+        p = self._cache_dir() / f"norm-{self._cache_key()}.pkl"
+        try:
+            with open(p, "rb") as fh:
+                trees, rep = pickle.load(fh)
+            if set(trees) == set(self.modules):
+                return trees, rep
+        except Exception:
+            return None
+        return None
+
+    def _cache_store(self) -> None:
+        import pickle
+        import tempfile
+
+        try:
+            d = self._cache_dir()
+            d.mkdir(exist_ok=True)
+            fd, tmp = tempfile.mkstemp(dir=str(d), prefix="norm-", suffix=".tmp")
+            with os.fdopen(fd, "wb") as fh:
+                pickle.dump(({n: m.tree for n, m in self.modules.items()}, self.normalisation), fh, protocol=pickle.HIGHEST_PROTOCOL)
+            os.replace(tmp, d / f"norm-{self._cache_key()}.pkl")
+            # keep the directory small
+            old = sorted(d.glob("norm-*.pkl"), key=lambda q: q.stat().st_mtime)
+            for q in old[:-40]:
+                q.unlink(missing_ok=True)
+        except Exception:
+            pass
 
     def _index(self, mod: Module) -> None:
         def visit(body: list[ast.stmt], prefix: str, cls: ClassInfo | None, parent: Func | None) -> None:
